@@ -169,7 +169,9 @@ func c12Digest(s string) string {
 
 func c12Clone(b []byte) []byte { return append([]byte{}, b...) }
 
-func c12LimitKinds(r *rand.Rand, dlen int64) (int64, string) { return c12LimitOf(r, r.Intn(c12NLimitKinds), dlen) }
+func c12LimitKinds(r *rand.Rand, dlen int64) (int64, string) {
+	return c12LimitOf(r, r.Intn(c12NLimitKinds), dlen)
+}
 
 const c12NLimitKinds = 14
 
@@ -1040,7 +1042,7 @@ func runC12Bombs(c *Ctx) {
 					worst = x
 				}
 				replay := map[string]interface{}{"op": t.name, "maximum_decompressed_body_size": max, "effective_limit": t.eff,
-					"bomb": fmt.Sprintf("DEFLATE level 9 of a %d-byte Response whose only child is a comment of 'A's (%d bytes compressed)", size, len(bomb)),
+					"bomb":            fmt.Sprintf("DEFLATE level 9 of a %d-byte Response whose only child is a comment of 'A's (%d bytes compressed)", size, len(bomb)),
 					"allocated_bytes": alloc, "allowed_bytes": bound}
 				if len(bomb) < 20000 {
 					replay["data_b64"] = b64(bomb)
